@@ -921,6 +921,17 @@ RULES = {
         ("self . to_u64 ( ) . as_ref ( ) . and_then ( u64 :: to_i64 )", "match self . to_u64 ( ) { Some ( v__ ) => __u64_to_i64 ( v__ ) , None => None , }"),
         ("self . to_u128 ( ) . as_ref ( ) . and_then ( u128 :: to_i128 )", "match self . to_u128 ( ) { Some ( v__ ) => __u128_to_i128 ( v__ ) , None => None , }"),
     ]),
+    "R56": MultiRule("R56", "float tails of to_f64 / to_f32 over the local float model (prelude/floatmodel.rs): `(m as f64)`, `2.0f64.powi(e as i32)`, `*`, `f64::INFINITY`, unary minus and the f32 twins -> model helpers (IEEE semantics named, not interpreted); return types f64 / f32 -> MF64 / MF32; the generic fls at T = u64", [
+        ("Option < f64 >", "Option < MF64 >"),
+        ("Option < f32 >", "Option < MF32 >"),
+        ("Some ( f64 :: INFINITY )", "Some ( __f64_infinity ( ) )"),
+        ("Some ( f32 :: INFINITY )", "Some ( __f32_infinity ( ) )"),
+        ("Some ( ( mantissa as f64 ) * 2.0f64 . powi ( exponent as i32 ) )", "Some ( __u64_as_f64 ( mantissa ) . mul ( __f64_pow2 ( exponent as i32 ) ) )"),
+        ("Some ( ( mantissa as f32 ) * 2.0f32 . powi ( exponent as i32 ) )", "Some ( __u64_as_f32 ( mantissa ) . mul ( __f32_pow2 ( exponent as i32 ) ) )"),
+        ("f32 :: MAX_EXP as u64", "128u64"),
+        ("fls ( mantissa )", "fls64 ( mantissa )"),
+        ("Some ( if self . sign == Minus { - n } else { n } )", "Some ( if self . sign == Minus { n . negf ( ) } else { n } )"),
+    ]),
     "R14n": Rule("R14n", "debug_assert_ne!(..); -> (dropped)", "debug_assert_ne ! ( $$c ) ;", ""),
     "R10n": Rule("R10n", "for _ in A..E { BODY } -> { let mut i__ = A; let e__ = E; while i__ < e__ { i__ += 1; BODY } }  (std: Range yields A, .., E-1; bounds evaluated once)",
                  "for _ in $$a .. $$e { $$body }", "{ let mut i__ = $$a ; let e__ = $$e ; while i__ < e__ { i__ += 1 ; $$body } }",
